@@ -1002,7 +1002,8 @@ pub fn c18_text(pool: &PhrasePool, rng: &mut Rng) -> String {
             0 => format!("{} km", p(rng)),
             1 => format!("{}%", p(rng)),
             2 => format!("round({}, {})", p(rng), literal(rng)),
-            _ => format!("2 ^ {}", p(rng)),
+            // (never a fact as an exponent: `2 ^ population uganda` is a number of fourteen million digits)
+            _ => format!("{} ^ 2", p(rng)),
         },
         24 => format!("({}) * {}", chain_cast(rng), p(rng)),
         25 => format!("{} * {}", p(rng), chain_cast(rng)),
